@@ -1,5 +1,5 @@
 (* C06 — Unmatched requests resolve HEAD->GET, fallback route, 405/Allow, 404 in order. Property theorems only. *)
-From Rux Require Import Base Str Consts Norm NormFacts Writer Chain Dispatch Pattern Pat Cache Table TableFacts TableMore PatTable SelectFacts.
+From Rux Require Import Base Str Consts Norm NormFacts Writer Chain Dispatch Pattern Pat Cache Table TableFacts TableMore PatTable SelectFacts RoundTrip TableLink.
 Open Scope Z_scope.
 
 (* For every grammar-level table, every option combination (without caching / InterceptAll, see below), every
@@ -49,6 +49,14 @@ Theorem C06_legacy_F14_refuted :
   fst (quick_match (build f14_opts f14_rs) GET [slash; 120%N]) = QFound 0 None.
 Proof. split; vm_compute; reflexivity. Qed.
 
+(* the same ladder for the string-level router (pattern texts compiled as router.go does) on printable tables *)
+Theorem C06_string_level_order : forall o es rt m p path,
+  o_caching o = false -> o_intercept o = [] -> Forall wf_entry es ->
+  reg_routes (new_router o) (map entry_rdef es) = Ok rt -> no_slash m ->
+  format_path (o_strict o) p = Ok path ->
+  qsel (fst (quick_match rt m p)) = ladder o (map entry_sroute es) m path.
+Proof. exact string_level_ladder. Qed.
+
 Print Assumptions C06_order.
 Print Assumptions C06_cached.
 Print Assumptions C06_intercept.
@@ -57,3 +65,4 @@ Print Assumptions C06_default_405.
 Print Assumptions C06_default_405_options.
 Print Assumptions C06_default_404.
 Print Assumptions C06_legacy_F14_refuted.
+Print Assumptions C06_string_level_order.
